@@ -367,9 +367,11 @@ class Open(State):
 
         if self.is_set_release_signal_from_peer():
             self.event_open_peer_disc()      
+            return
 
         if self.is_set_release_signal_from_local():
             self.event_stop()
+            return
 
         if self.has_send_queue_message():
             self.make_default_logging(queue="send")
